@@ -9,7 +9,7 @@ import ast
 
 from ..program import AnalysisError, walk_local, dotted
 from ..analysis import Spec, src, const_value
-from ..rules import (chained_loop, first_rest, canon, inside, before, GWF, EXC, mpt, need_func, need_call, stores_to,
+from ..rules import (substitute_locals, chained_loop, first_rest, canon, inside, before, GWF, EXC, mpt, need_func, need_call, stores_to,
                      parent_map, outcomes, explicit_exits, strip_wrappers,
                      chained_assign_value, raise_class)
 from . import common
@@ -514,7 +514,10 @@ def integration_vector(prog, an, rep):
     ghost_ok = False
     for y in pre:
         if isinstance(y.value, ast.Name):
-            for _, v in stores_to(f, y.value.id):
+            vals = [v for _, v in stores_to(f, y.value.id)]
+            # (the object may have gone through another local first)
+            vals += [substitute_locals(f, y.value)]
+            for v in vals:
                 if isinstance(v, ast.Call):
                     cal = prog.callee(f, v)
                     if cal[0] == 'class' and \
